@@ -643,7 +643,7 @@ def get_bs_cached(Rmax, order=2, odd=False, direction='inverse', reg=None,
         return _trf
     else:  # 'inverse'
         if _tri_prm != [reg]:
-            _tri_prm = [reg]
+            _tri_prm = None  # (invalid until the new matrices are ready)
             if reg is None:
                 # calculate full inverse matrices, if not yet
                 if _tri_full is None:
@@ -727,6 +727,7 @@ def get_bs_cached(Rmax, order=2, odd=False, direction='inverse', reg=None,
             else:
                 raise ValueError('Wrong regularization type "{}"'.
                                  format(reg[0]))
+            _tri_prm = [reg]
         if new_bs:
             _save_bs(basis_dir, Rmax, order, odd, _bs, _tri_full, verbose)
         return _tri
